@@ -33,9 +33,13 @@ import (
 )
 
 const (
-	slack     = time.Second
-	minStall  = 3 * time.Second // >= 3 x slack
-	loadLimit = 250 * time.Millisecond
+	slack    = time.Second
+	minStall = 3 * time.Second // >= 3 x slack
+	// a late (not blocked) call is only judged when none of the canary goroutines woke up more than this late while it ran
+	loadLimit = 100 * time.Millisecond
+	// a call still blocked 3 s past its deadline is judged unless the canaries were this late (the process was frozen)
+	frozenLimit = time.Second
+	nCanaries   = 4
 )
 
 type nopLogger struct{}
@@ -57,7 +61,14 @@ type lagSample struct {
 
 func startCanary() *canary {
 	c := &canary{stop: make(chan struct{})}
-	go func() {
+	for k := 0; k < nCanaries; k++ {
+		go c.run()
+	}
+	return c
+}
+
+func (c *canary) run() {
+	{
 		const tick = 5 * time.Millisecond
 		for {
 			t0 := time.Now()
@@ -74,8 +85,7 @@ func startCanary() *canary {
 			}
 			c.mu.Unlock()
 		}
-	}()
-	return c
+	}
 }
 
 // maxLag is the largest wake-up delay the canary saw in [from, to] (a sample that
@@ -86,8 +96,11 @@ func (c *canary) maxLag(from, to time.Time) time.Duration {
 	var m time.Duration
 	for i := len(c.lags) - 1; i >= 0; i-- {
 		s := c.lags[i]
+		if s.at.Before(from.Add(-time.Second)) {
+			break // (samples of the canaries interleave; one second of overlap is plenty)
+		}
 		if s.at.Before(from) {
-			break
+			continue
 		}
 		if s.at.Add(-s.lag - 5*time.Millisecond).After(to) {
 			continue
@@ -221,9 +234,16 @@ func classify(srv *tagsrv.Server, id string, resp *fasthttp.Response, err error)
 	return "unexpected-error", err.Error()
 }
 
+type lateCall struct {
+	ID       string
+	Deadline time.Time
+	Caller   int
+	Blocked  bool // still blocked minStall after its deadline, while the server kept stalling
+}
+
 type result struct {
 	calls      []*call
-	late       []*call // calls that were still blocked at deadline + slack (pointer shared with calls once returned)
+	late       []*lateCall // calls that were still blocked at deadline + slack
 	lateStacks string
 	snap       tagsrv.Snapshot
 	drained    bool
@@ -323,7 +343,7 @@ func runScenario(sc *scenario, r *mon.Run, cn *canary) *result {
 	// Judged phase: watch the callers; the stall is not released while any of them is still to be judged.
 	jdone := make(chan struct{})
 	go func() { judged.Wait(); close(jdone) }()
-	var firstLate time.Time // deadline of the first call found blocked at deadline + slack
+	lateBySlot := map[int]*lateCall{}
 watch:
 	for {
 		select {
@@ -332,22 +352,34 @@ watch:
 		case <-time.After(25 * time.Millisecond):
 		}
 		now := time.Now()
+		pendingLate, allHeldLongEnough := 0, true
 		for g, s := range slots {
 			s.mu.Lock()
-			if s.id != "" && !s.flagged && now.Sub(s.deadline) > slack {
-				s.flagged = true
-				lc := &call{ID: s.id, Deadline: s.deadline, API: fmt.Sprintf("caller %d", g)}
-				res.late = append(res.late, lc)
-				if res.lateStacks == "" {
-					res.lateStacks = mon.Stacks()
-					firstLate = s.deadline
+			if s.id != "" && now.Sub(s.deadline) > slack {
+				if !s.flagged {
+					s.flagged = true
+					lc := &lateCall{ID: s.id, Deadline: s.deadline, Caller: g}
+					lateBySlot[g] = lc
+					res.late = append(res.late, lc)
+					if res.lateStacks == "" {
+						res.lateStacks = mon.Stacks()
+					}
+				}
+				pendingLate++
+				if now.Sub(s.deadline) > minStall {
+					if lc := lateBySlot[g]; lc != nil && lc.ID == s.id {
+						lc.Blocked = true
+					}
+				} else {
+					allHeldLongEnough = false
 				}
 			}
 			s.mu.Unlock()
 		}
-		// a call is late: keep the server stalled until it is >= 3 s past its deadline
-		// ("late" = returned by itself in between; "blocked" = only the end of the stall frees it), then give up waiting.
-		if !firstLate.IsZero() && now.Sub(firstLate) > minStall {
+		// Calls are blocked past deadline + slack: the server keeps stalling until each of them is
+		// >= 3 s past its deadline (a call that is merely late returns by itself in between; a
+		// broken one is only freed by the end of the stall), then the harness stops waiting.
+		if pendingLate > 0 && allHeldLongEnough {
 			break watch
 		}
 	}
@@ -401,7 +433,7 @@ func TestC38(t *testing.T) {
 		"DoTimeout/DoDeadline with 20-100 ms, 0-25% of the callers use plain Do (to evict queued work); case = one call; " +
 		"distinct = feature vector (mode, MaxConns, MaxPendingRequests, caller bucket, set of outcomes seen, plain-Do callers present); non-trivial = at least one call of the scenario timed out, overflowed or saw a connection error")
 	r.Assume("slack 1 s; stalls are released only after every judged call has returned or was recorded blocked at deadline + 1 s, and then not before the blocked call is 3 s past its deadline")
-	r.Assume("a call found late while the process' own canary goroutine (5 ms sleeps) woke up more than 250 ms late in the same window is not judged (machine overload): counted as skipped_late_under_load and reported inconclusive")
+	r.Assume("overload guard: 4 canary goroutines of this process sleep 5 ms in a loop and record how late they wake up. A call that returned by itself later than deadline + 1 s is judged only if no canary woke up more than 100 ms late while the call ran; a call still blocked 3 s past its deadline (freed only by the end of the stall) is judged unless a canary was more than 1 s late. Unjudged late calls are counted (skipped_late_under_load) and reported inconclusive")
 	r.Assume("'connection error' = io.EOF / io.ErrUnexpectedEOF / closed pipe / any net.Error / ErrBrokenChunk / ErrConnectionClosed / the pipeline's 'connection has been stopped' error")
 	r.Assume("'transmitted' = the X-Id header line of the request reached the tag server (parsed, or found in the input drained when a connection was closed)")
 
@@ -434,7 +466,7 @@ func TestC38(t *testing.T) {
 		outcomes := map[string]int{}
 		// 1. lateness
 		reported := map[string]bool{}
-		report := func(id string, deadline, returned time.Time, how string) {
+		report := func(id string, started, deadline, returned time.Time, blocked bool, how string) {
 			if reported[id] {
 				return
 			}
@@ -443,20 +475,29 @@ func TestC38(t *testing.T) {
 			if end.IsZero() {
 				end = time.Now()
 			}
-			if lag := cn.maxLag(deadline, end); lag > loadLimit {
+			lag := cn.maxLag(started, end)
+			limit := loadLimit
+			if blocked {
+				limit = frozenLimit
+			}
+			if lag > limit {
 				r.Event("skipped_late_under_load", 1)
-				r.Inconclusive(fmt.Sprintf("%s: call %s %s, but the canary goroutine itself woke up %v late in that window (overload)", desc, id, how, lag))
+				r.Inconclusive(fmt.Sprintf("%s: call %s %s, but a canary goroutine of this process woke up %v late in that window (overload)", desc, id, how, lag))
 				return
 			}
-			r.Violation(i, "late-return", fmt.Sprintf("%s: call %s %s (slack %v)", desc, id, how, slack),
-				map[string]any{"scenario": desc, "id": id, "deadline": deadline, "returned": returned, "call": byID[id], "stacks_when_first_found_blocked": res.lateStacks})
+			r.Violation(i, "late-return", fmt.Sprintf("%s: call %s %s (slack %v; worst canary wake-up delay in that window %v)", desc, id, how, slack, lag),
+				map[string]any{"scenario": desc, "id": id, "deadline": deadline, "returned": returned, "blocked_until_stall_released": blocked, "call": byID[id], "stacks_when_first_found_blocked": res.lateStacks})
 		}
 		for _, lc := range res.late {
 			c := byID[lc.ID]
-			if c == nil {
-				report(lc.ID, lc.Deadline, time.Time{}, "was still blocked at deadline + slack and never returned, even after the server released the stall and closed its connections")
-			} else {
-				report(lc.ID, lc.Deadline, c.Returned, fmt.Sprintf("was still blocked at deadline + slack; it returned %v after its deadline with %s %q", c.LateBy.Round(time.Millisecond), c.Class, c.Err))
+			started := lc.Deadline.Add(-100 * time.Millisecond)
+			switch {
+			case c == nil:
+				report(lc.ID, started, lc.Deadline, time.Time{}, true, "was still blocked at deadline + slack and never returned, even after the server released the stall and closed its connections")
+			case lc.Blocked:
+				report(lc.ID, started, lc.Deadline, c.Returned, true, fmt.Sprintf("was still blocked %v after its deadline while the server stalled; it returned %v after its deadline, once the stall was released, with %s %q", minStall, c.LateBy.Round(time.Millisecond), c.Class, c.Err))
+			default:
+				report(lc.ID, started, lc.Deadline, c.Returned, false, fmt.Sprintf("was still blocked at deadline + slack; it returned by itself %v after its deadline with %s %q", c.LateBy.Round(time.Millisecond), c.Class, c.Err))
 			}
 		}
 		var worst time.Duration
@@ -470,7 +511,7 @@ func TestC38(t *testing.T) {
 				worst = c.LateBy
 			}
 			if c.LateBy > slack {
-				report(c.ID, c.Deadline, c.Returned, fmt.Sprintf("returned %v after its deadline with %s %q", c.LateBy.Round(time.Millisecond), c.Class, c.Err))
+				report(c.ID, c.Deadline.Add(-c.Timeout), c.Deadline, c.Returned, false, fmt.Sprintf("returned %v after its deadline with %s %q", c.LateBy.Round(time.Millisecond), c.Class, c.Err))
 			}
 		}
 		r.Event("worst_overrun_ms_sum", int(worst/time.Millisecond))
